@@ -120,8 +120,8 @@ Inc1  == Prog(1, << Eq("add", <<V(1), L(1)>>, 0, <<>>, "") >>, <<V(2)>>)
 ForB  == Prog(2, << Eq("add", <<V(1), V(2)>>, 0, <<>>, "") >>, <<V(3)>>)
 Lit2  == Prog(1, << Eq("mul", <<V(1), C(1)>>, 0, <<>>, "") >>, <<V(2), L(1)>>)
 SmallEqs(te) ==
-  {Eq(op, <<a, b>>, 0, <<>>, "") : op \in {"add", "mul", "lt"}, a \in AnyOp(te), b \in AnyOp(te)}
-  \cup {Eq(op, <<a, b>>, 0, <<>>, "") : op \in {"sub", "max"}, a \in VarOp(te), b \in VarOp(te)}
+  {Eq(op, <<a, b>>, 0, <<>>, "") : op \in {"add", "lt"}, a \in AnyOp(te), b \in AnyOp(te)}
+  \cup {Eq(op, <<a, b>>, 0, <<>>, "") : op \in {"sub", "mul", "max"}, a \in VarOp(te), b \in VarOp(te)}
   \cup {Eq("neg", <<a>>, 0, <<>>, "") : a \in AnyOp(te)}
   \cup {Eq("where", <<c, a, b>>, 0, <<>>, "") : c \in VarOp(te), a \in {V(1), V(3), L(1)}, b \in {V(2), V(3), C(1)}}
   \cup {Eq("index", <<v, i>>, 0, <<>>, "") : v \in SOp(te, "v"), i \in SOp(te, "s")}
